@@ -136,6 +136,12 @@ def build_driver():
     """Re-extract (ExtrOcamlBasic only) and rebuild the OCaml driver when any model object or the
     driver source is newer than the binary."""
     os.makedirs(EXTRACT, exist_ok=True)
+    # every model object must be current (a property's own target only builds what it depends on)
+    coq_makefile()
+    models = [l.strip()[:-2] + '.vo' for l in open(os.path.join(COQ, '_CoqProject')) if l.startswith('Model/') or l.startswith('gen/')]
+    r = run(['timeout', '1500', 'make', f'-j{NPROC}'] + models, cwd=COQ, timeout=1600)
+    if r.returncode != 0:
+        return False, r.stdout[-3000:]
     srcs = glob.glob(os.path.join(COQ, 'Model', '*.vo')) + [os.path.join(ROOT, 'extract', 'driver.ml'),
                                                            os.path.join(COQ, 'Extract.v')]
     if os.path.exists(DRIVER) and all(os.path.getmtime(s) <= os.path.getmtime(DRIVER) for s in srcs):
